@@ -6,6 +6,7 @@ From RRSS Require Import Base.Outcome Base.Chars Base.F64 Base.F64Text Exec.Ops 
 From RRSS Require Import Proofs.ParseSound Proofs.GrammarLaws Proofs.LiteralLaws.
 From RRSS Require Import Proofs.LexNumbers.
 From RRSS Require Import Proofs.ParseLayout.
+From RRSS Require Import Proofs.LexKeywords.
 Import ListNotations.
 Open Scope N_scope.
 
@@ -117,6 +118,25 @@ Example C02_layout_example :
   map pt_tok (drop_comments ex_pa) <> map pt_tok (drop_comments ex_pb) /\
   same_parse (parse Debug ex_a) (parse Debug ex_b) /\ exists p, parse Debug ex_a = ParseOk p.
 Proof. exact layout_example. Qed.
+
+(** the alias table is applied to whole sources: no word token of any lexed source spells a keyword — in any alias,
+    in any letter case (the lookup folds case) — and the two word scanners give a word that the table knows exactly the
+    table's kind *)
+Theorem C02_keywords_are_never_names :
+  forall prof src pts, lex prof src = Ok pts ->
+  Forall (fun pt => tid (pt_tok pt) = TWord -> match_keyword (tspell (pt_tok pt)) = None) pts.
+Proof. exact lex_words_are_not_keywords. Qed.
+
+Theorem C02_keyword_scanner_kind :
+  forall prof lx s0 start r, scan_keyword prof lx s0 start = Ok (Some r) ->
+  match_keyword (tspell (lr_token r)) = Some (tid (lr_token r)).
+Proof. exact scan_keyword_kind. Qed.
+
+Theorem C02_word_scanner_kind :
+  forall prof lx word b start e r stg, tokenize_word prof lx (word ++ b) start word e = Ok (r, stg) ->
+  (match match_keyword (tspell (lr_token r)) with Some k => tid (lr_token r) = k | None => tid (lr_token r) = TWord end) /\
+  wstg_ok stg.
+Proof. exact tokenize_word_kind. Qed.
 
 Print Assumptions C02_expression_in_grammar.
 Print Assumptions C02_program_in_grammar.
